@@ -12,8 +12,24 @@ PID = 'C11'
 def run(tier, seed):
     spec = emaster.make_spec(PID, 'c11', n_quick=500, n_thorough=15000,
                              rule_extra='Master.cell compared with the stored placement right after load_model()')
+    # load_model as a run of the scheduler's operations: Master/LoadModel.v, Props/C11Load.v, harness/props/c11load.py
+    from . import c11load
+    spec['trusted'] = list(spec.get('trusted', [])) + list(c11load.TRUSTED)
+    spec['assumptions'] = list(spec.get('assumptions', [])) + list(c11load.ASSUMPTIONS)
+    inner = spec.get('extra')
+
+    def extra(r, cases, obs):
+        cov = inner(r, cases, obs) if inner else {}
+        u = c11load.stage(r, seed, tier)
+        cov['extra_obligations'] = cov.get('extra_obligations', 0) + u.pop('loadmodel_obligations', 0)
+        cov.update(u)
+        return cov
+    spec['extra'] = extra
     core.standard_run(PID, tier, seed, spec)
 
 
 def replay_case(case):
+    if isinstance(case, dict) and case.get('engine') == 'E-master-c11load':
+        from . import c11load
+        return c11load.replay_case(case)
     return emaster.replay(PID, case)
